@@ -1,10 +1,11 @@
 #!/bin/sh
 # tools/seed_validate.sh <ID> [name]: confirm a sub-agent's change in /tmp/seed-<ID> (demo fails with
 # it, passes on /repo, pinned suite still passes), then store it under /verif/seeded/<name>/.
-ID=$1; NAME=${2:-$1}; W=/tmp/seed-$ID
+ID=$1; NAME=${2:-$1}; W=${3:-/tmp/seed-$ID}
 cd /verif || exit 2
 /venv/bin/python $W/demo_$ID.py $W > /var/tmp/seed-$NAME.demo-with.txt 2>&1; A=$?
-/venv/bin/python $W/demo_$ID.py /repo > /var/tmp/seed-$NAME.demo-without.txt 2>&1; B=$?
+CLEAN=/repo; [ -d /tmp/clean-repo ] && CLEAN=/tmp/clean-repo   # an unpatched checkout of HEAD
+/venv/bin/python $W/demo_$ID.py $CLEAN > /var/tmp/seed-$NAME.demo-without.txt 2>&1; B=$?
 echo "demo with change: exit $A; on /repo: exit $B"
 python3 tools/baseline.py $W > /var/tmp/seed-$NAME.baseline.txt 2>&1; C=$?
 tail -1 /var/tmp/seed-$NAME.baseline.txt
